@@ -320,7 +320,14 @@ func (ex *Exec) callContract(st *State, c *ssa.Call, callee *ssa.Function, args 
 	if fc == nil {
 		ex.failObl("contract", "uncontracted-callee/"+name, "in-package callee without contract", ex.fnTags(), c)
 		st.vals[c] = ex.freshOfType(st, "r_"+callee.Name(), c.Type(), false)
-		ex.havocAll(st)
+		// unknown result; only what the callee may write (syntactic may-write set) is forgotten
+		touch, globals := ex.p.touchOf(callee)
+		pre := st.clone()
+		all := &assignSet{refs: map[string][]Term{}, globals: map[string]bool{"*": true}, all: map[string]bool{}}
+		for h := range touch {
+			all.all[h] = true
+		}
+		ex.havocHeap(st, pre, touch, globals, all, "unk")
 		return nil
 	}
 	st.calls[name]++
